@@ -245,6 +245,8 @@ def relevant(prop, f):
         # the real crate panicked / aborted on this input (debug assertions and UB precondition checks are on in the replay build)
         # ... a panic inside a scanner file is also the scanner not stopping where C12 says it stops
         return prop in ('C01', 'C13') or (prop == 'C09' and fam == 'chunk') or (prop == 'C12' and 'src/simd/' in f.get('real', ''))
+    if fam == 'config':
+        return prop in ('C14', 'C15')
     if prop == 'C19':
         return fam == 'alloc'
     if fam == 'alloc':
